@@ -333,6 +333,24 @@ class Session:
                 out.append(fn(idx))
         return out
 
+    def schema_instances(self, cands, kinds=("minmax", "all", "any", "equal")):
+        """instantiate every registered quantified fact at all combinations of the candidate digit tuples"""
+        import itertools
+
+        out = []
+        for (label, fn) in self.ctx.schemas:
+            if label[0] not in kinds:
+                continue
+            per_axis = []
+            for d in label[1]:
+                if d.is_one:
+                    per_axis.append([()])
+                else:
+                    per_axis.append([tuple(c) for c in cands if len(c) == len(d.factors)])
+            for combo in itertools.product(*per_axis):
+                out.append(fn(list(combo)))
+        return out
+
     def forall(self, label, tensor, pred, kind="post", extra_hyps=()):
         """obligation: for every index of `tensor`, pred(idx) holds (generic index = Skolem constants)"""
         v = lift(tensor)
